@@ -519,6 +519,7 @@ inductive RouteArg where
 inductive SendArg where
   | dflt                    -- send_path=None: '@6/1'
   | empty                   -- send_path=''
+  | other                   -- a path that is not the Connection Manager's: '@2/1', '@1/1', '@6/2', …
 
 /-- the class default `route_path_default` -/
 def routeDefault : Text := [49, 47, 48]
@@ -538,6 +539,13 @@ def clientCarried (r : RouteArg) (s : SendArg) : Option (Option RoutePath) :=
     match s with
     | .empty => if p.isEmpty then some none else none      -- "Must supply a send_path … if route_path supplied"
     | .dflt => some (some p)
+    | .other => some (some p)
+
+/-- the Unconnected Send wrapper (if any) designates an existing Connection Manager; a request without
+the wrapper is handed to the default one (class 6, instance 1) -/
+def SendArg.toCM : SendArg → Bool
+  | .other => false
+  | _ => true
 
 /-! ## One request through `UCMM.request`, and a session through `enip_srv_tcp` -/
 
@@ -576,7 +584,7 @@ inductive Op where
   | gas (attr : Nat)                      -- Get Attribute Single @2/1/attr
   | sas (attr : Nat) (vs : List Nat)      -- Set Attribute Single @2/1/attr (whole attribute)
   | gaa                                   -- Get Attributes All @1/1 (no tag behind it)
-  | unknown                               -- a tag that does not exist: the request raises
+  | unknown (frag : Bool := false)        -- Read Tag [Fragmented] of a tag that does not exist
 
 inductive Req where
   | single (op : Op)
@@ -635,7 +643,7 @@ def execOp (d : Dev) : Op → Option (Dev × OpResult)
         some ({ tags := d.tags.set (a - 1) vs, log := d.log ++ [⟨a - 1, true, 0, l.length⟩] }, ⟨0, [], false⟩)
       else none
   | .gaa => some (d, ⟨0, [], true⟩)
-  | .unknown => none
+  | .unknown _ => some (d, ⟨5, [], false⟩)   -- answered by the Message Router: path destination unknown
 
 def execOps (d : Dev) : List Op → Option (Dev × List OpResult)
   | [] => some (d, [])
@@ -653,15 +661,21 @@ def execReq (d : Dev) : Req → Option (Dev × List OpResult)
 
 /-- A request as the server's parser sees it: `bare` = no Unconnected Send wrapper.  A bare Read Tag
 Fragmented starts with service code 0x52, which the parser takes for an Unconnected Send: the garbled
-request raises in the addressed object (no tag access) whatever the personality. -/
-def execFrame (d : Dev) : Bool × Req → Option (Dev × List OpResult)
-  | (true, .single (.read _ _ _ true)) => none
-  | (_, req) => execReq d req
+wrapper does not address a Connection Manager (its "send path" is the tag's own path, or does not
+resolve at all), so `UCMM.request` raises before anything is executed (no tag access), whatever the
+personality.  `exec … = none` thus also stands for the UCMM's own refusal of the target. -/
+def execFrame (d : Dev) : Bool × Bool × Req → Option (Dev × List OpResult)
+  | (_, false, _) => none        -- `assert isinstance( CM, Connection_Manager )`: not executed
+  | (true, true, .single (.read _ _ _ true)) => none
+  | (true, true, .single (.unknown true)) => none
+  | (_, true, req) => execReq d req
 
-def serve (cfg : Config) (d : Dev) (rp : Option RoutePath) (req : Req) :=
-  serveWith execFrame cfg d rp (rp.isNone, req)
+/-- `toCM = false`: the wrapper's send path designates something else than a Connection Manager;
+`UCMM.request` then raises after the route-path test and before anything is executed -/
+def serve (cfg : Config) (d : Dev) (rp : Option RoutePath) (toCM : Bool) (req : Req) :=
+  serveWith execFrame cfg d rp (rp.isNone, toCM, req)
 
-def session (cfg : Config) (d : Dev) (frames : List (Option RoutePath × Req)) :=
-  sessionWith execFrame cfg d (frames.map fun (rp, req) => (rp, (rp.isNone, req)))
+def session (cfg : Config) (d : Dev) (frames : List (Option RoutePath × Bool × Req)) :=
+  sessionWith execFrame cfg d (frames.map fun (rp, toCM, req) => (rp, (rp.isNone, toCM, req)))
 
 end Cpppo.Route
